@@ -7,12 +7,15 @@ CONSTANTS
   MaxFile = 12
   Reuse = {TRUE, FALSE}
   AllowTorn = TRUE
+  MaxFaults = 1
   Bug_AckBeforeWal = FALSE
   Bug_WalDeletedEarly = FALSE
   Bug_ManifestBeforeTable = FALSE
   Bug_CurrentInPlace = FALSE
   Bug_RecoverSkipsOlderWal = FALSE
   Bug_ReuseAfterTornTail = FALSE
+  Bug_WriteErrorSwallowed = FALSE
+  Bug_ManifestErrorSwallowed = FALSE
 INVARIANTS Durable RecoveryEnabled CurrentAlwaysValid DiskHoldsAcked
 CONSTRAINT Bound
 CHECK_DEADLOCK FALSE
